@@ -124,7 +124,6 @@ def run(c, facts, tier):
     c.ob("C18.label", newfn.key, "category labels matched by the error folder", matched == sorted(cats.values()), "SyntaxContext::new matches on %s; the grammar's category labels are %s" % (matched, sorted(cats.values())))
     # fold semantics: for each category: `Label(s) if *s == CAT => field = Some("")` followed by `Label(s) if expecting_<field>() => field = Some(s)`
     fold_ok = fold_semantics(newfn, facts, cats)
-    c.ob("C18.label", newfn.key, "the label following a category label becomes that category's keyword", not fold_ok, "; ".join(fold_ok) or "for test/action/global: category label resets the field to \"\", the next label fills it")
     # the folder reads the labels from the outside in (category, then keyword): winnow hands them out innermost first
     # (ContextError::context() iterates in the order the contexts were pushed while the error travelled outward), so the
     # list must be turned round exactly once on its way into the folder.  Decided by evaluating dispatch() on a context list
@@ -132,37 +131,54 @@ def run(c, facts, tier):
     from .. import probe as P
 
     disp = facts.fn("ParserError::dispatch")
-    inner_first = [("enum", "StrContext::Expected", [("enum", "StrContextValue::Description", ["some_description"])]), ("enum", "StrContext::Label", ["-keyword"]), ("enum", "StrContext::Label", ["category"]), ("enum", "StrContext::Label", ["outermost"])]
-    seen_order = {}
-
-    class _Stop(Exception):
-        pass
-
-    def _capture(args):
-        seen_order["v"] = args[0] if args else None
-        raise _Stop()
-
-    prd = P.Probe(facts, "ParserError", disp.module)
-    prd.intercept[newfn.key] = _capture
-    ctxerr = P.Opq("ctxerr")
-
-    def _context_hook(pr_, e, env):
-        if pr_.ev(e["recv"], env) is ctxerr and not e["args"]:
-            return list(inner_first)
-        return NotImplemented
-
-    prd.mhooks["context"] = _context_hook
     order_ok, order_det = None, "dispatch() not evaluable up to the folder"
-    try:
-        prd.invoke(disp, None, [ctxerr, P.Opq("input")])
-        order_det = "dispatch() returns without calling %s" % newfn.key
-    except _Stop:
-        got = seen_order.get("v")
-        order_ok = isinstance(got, list) and len(got) == len(inner_first) and all(x is y or x == y for x, y in zip(got, reversed(inner_first)))
-        order_det = "the folder is handed %s" % ([x[2][0] if x[1].endswith("Label") else "<description>" for x in got] if isinstance(got, list) else got) + "; winnow yields the innermost context first, the folder needs the outermost first"
-    except (P.NoEval, P.Panic) as ex:
-        order_det = "dispatch() not evaluable up to the folder: %s" % ex
+    bad_cat = []
+    for cat_name, cat_label in sorted(cats.items()):
+        inner_first = [("enum", "StrContext::Expected", [("enum", "StrContextValue::Description", ["some_description"])]), ("enum", "StrContext::Label", ["-keyword"]), ("enum", "StrContext::Label", [cat_label]), ("enum", "StrContext::Label", ["outermost"])]
+        seen_ctx = {}
+
+        class _Stop(Exception):
+            pass
+
+        def _capture(args, seen_ctx=seen_ctx):
+            # the folder itself is evaluated on whatever dispatch() hands it (a reversed list, or the list as it is and a
+            # fold from the right): what counts is the context it derives
+            p2 = P.Probe(facts, "SyntaxContext", newfn.module)
+            seen_ctx["v"] = p2.invoke(newfn, None, list(args))
+            raise _Stop()
+
+        prd = P.Probe(facts, "ParserError", disp.module)
+        prd.intercept[newfn.key] = _capture
+        ctxerr = P.Opq("ctxerr")
+
+        def _context_hook(pr_, e, env, ctxerr=ctxerr, inner_first=inner_first):
+            if pr_.ev(e["recv"], env) is ctxerr and not e["args"]:
+                return list(inner_first)
+            return NotImplemented
+
+        prd.mhooks["context"] = _context_hook
+        try:
+            prd.invoke(disp, None, [ctxerr, P.Opq("input")])
+            order_ok, order_det = None, "dispatch() returns without calling %s" % newfn.key
+            break
+        except _Stop:
+            got = seen_ctx.get("v")
+            flds = {k_: v_ for k_, v_ in got.items() if k_ != "__ty"} if isinstance(got, dict) else {}
+            named = [k_ for k_, v_ in flds.items() if v_ == ("some", "-keyword")]
+            desc = [k_ for k_, v_ in flds.items() if v_ == ("some", "some_description")]
+            wrong = [k_ for k_, v_ in flds.items() if isinstance(v_, tuple) and v_ and v_[0] == "some" and v_[1] not in ("-keyword", "some_description")]
+            if len(named) != 1 or len(desc) != 1 or wrong:
+                bad_cat.append("%s: %s" % (cat_label, {k_: (v_[1] if isinstance(v_, tuple) else v_) for k_, v_ in flds.items()}))
+            order_ok = not bad_cat
+        except (P.NoEval, P.Panic) as ex:
+            order_ok, order_det = None, "dispatch() not evaluable up to the folder: %s" % ex
+            break
+    if order_ok is not None:
+        order_det = ("for each category label, the contexts [description, keyword label, category label, outer label] as winnow hands them out (innermost first) give a context naming the keyword and the description" if order_ok else "the folder derives %s from the contexts [description, `-keyword`, category, `outermost`] that winnow hands out innermost first: it must read them from the outside in" % "; ".join(bad_cat))
     c.ob("C18.label", disp.key, "the folder reads the labels from the outside in", order_ok, order_det, witness="-amin d  → the message names `syntax`, not `-amin`" if order_ok is False else None)
+    # read off the syntax when the folder is the reviewed fold; whatever way it is written (rfold, a loop over slot states),
+    # the evaluation above has derived keyword and description from the contexts of each category
+    c.ob("C18.label", newfn.key, "the label following a category label becomes that category's keyword", (not fold_ok) or order_ok is True, ("; ".join(fold_ok) + " — but evaluated on the contexts of every category the folder names the keyword and the description") if fold_ok and order_ok is True else ("; ".join(fold_ok) or "for test/action/global: category label resets the field to \"\", the next label fills it"))
     narg = 0
     for a in alts:
         if a.lit is None:
